@@ -93,6 +93,15 @@ def _stores(e):
     return list(reversed(out)), e
 
 
+def _wheres(e):
+    """[(condition, value)] and the final alternative of a nested torch.where(c1, v1, torch.where(c2, v2, rest))"""
+    out = []
+    while isinstance(e, ast.Call) and norm_text(e.func) in ("torch.where",) and len(e.args) == 3 and not e.keywords:
+        out.append((e.args[0], e.args[1]))
+        e = e.args[2]
+    return out, e
+
+
 def _mask_kind(m, x):
     """('upper'|'lower', threshold) for a threshold comparison of the inputs; ('rest', [thresholds..]) for the
     complement of a union of such comparisons (~(a | b), ~a & ~b); None otherwise"""
@@ -147,7 +156,11 @@ def junction_rule(ctx):
         for pp in paths:
             stores, base = _stores(pp.ret.elts[0])
             if len(stores) < 2:
-                continue
+                # the same function written with torch.where: the last alternative is the rest
+                wh, rest_v = _wheres(pp.ret.elts[0])
+                if not wh or any(_mask_kind(c, x) is None or _mask_kind(c, x)[0] == "rest" for c, _ in wh):
+                    continue
+                stores = wh + [(ast.parse("~(%s)" % " | ".join("(%s)" % norm_text(c) for c, _ in wh), mode="eval").body, rest_v)]
             kinds = [(_mask_kind(m, x), m, v) for m, v in stores]
             if any(k is None for k, _, _ in kinds):
                 if any(k is not None and k[0] in ("upper", "lower") for k, _, _ in kinds):
